@@ -81,6 +81,9 @@ void harness(void)
     __CPROVER_assert(0, "canary");
 }
 '''
+    # std::mutex is not recursive: no stage method takes its mutex while it already holds it (lock tracking of C11, 1 container held)
+    from checks import c11
+    js += c11.lockset_jobs(info, 1, 'C06')
     js.append(core.Job('C06_File_ctor', src, route='harness', flags=file_common.FLAGS, functions=['File::File'], canary_ids=['harness.assertion.4'], timeout=120))
     return js
 
